@@ -333,22 +333,38 @@ def identity_matching(prog: Program, res: Results, rid: str) -> None:
     r = res.rule(rid, "the order entry of a located binding is found by identity: loops over an `attrpath_order` list that delete "
                  "an entry compare with `is`; no equality-based search (`==`, list.remove/index/count, `in`) is applied to an "
                  "order list, where look-alike leaves of different parents are equal", floor=3)
+    from sa.rules.c14 import order_exprs
+    from sa.seqbuild import _rev
+
+    def is_order(e, orders) -> bool:
+        t = norm(_rev(e)[0])
+        return "attrpath_order" in t or t in orders
+
     for f in prog.all_functions():
         if f.module.endswith("color.py"):
             continue
+        orders = order_exprs(f.node)
+
+        def deletes_from(region, it_text):
+            return [d for d in ast.walk(region) if (isinstance(d, ast.Delete) and any(it_text in norm(t) for t in d.targets))
+                    or (isinstance(d, ast.Call) and isinstance(d.func, ast.Attribute) and d.func.attr in ("remove", "pop") and norm(d.func.value) == it_text)]
+
         for n in walk_no_nested(f.node):
-            # loops over an order list that delete from it
-            if isinstance(n, ast.For):
-                it = n.iter.args[0] if isinstance(n.iter, ast.Call) and callee(n.iter) == "enumerate" and n.iter.args else n.iter
-                if "attrpath_order" not in norm(it):
-                    continue
-                deletes = [d for d in ast.walk(n) if (isinstance(d, ast.Delete) and any(norm(it) in norm(t) for t in d.targets))
-                           or (isinstance(d, ast.Call) and isinstance(d.func, ast.Attribute) and d.func.attr in ("remove", "pop") and norm(d.func.value) == norm(it))]
+            # searches over an order list that lead to a deletion from it: a loop that deletes, or a generator/comprehension
+            # (`next((i for i, e in enumerate(order) if …), None)`) in a function that deletes from the same list
+            region = target = it = None
+            if isinstance(n, ast.For) and is_order(n.iter, orders):
+                region, target, it = n, n.target, _rev(n.iter)[0]
+                deletes = deletes_from(n, norm(it))
+            elif isinstance(n, (ast.GeneratorExp, ast.ListComp)) and is_order(n.generators[0].iter, orders):
+                region, target, it = n, n.generators[0].target, _rev(n.generators[0].iter)[0]
+                deletes = deletes_from(f.node, norm(it))
+            if region is not None:
                 if not deletes:
                     continue
                 r.instances += 1
-                elem = [x.id for x in ast.walk(n.target) if isinstance(x, ast.Name)]
-                cmps = [c for c in ast.walk(n) if isinstance(c, ast.Compare) and any(e in norm(c) for e in elem)
+                elem = [x.id for x in ast.walk(target) if isinstance(x, ast.Name)]
+                cmps = [c for c in ast.walk(region) if isinstance(c, ast.Compare) and any(e in norm(c) for e in elem)
                         and any(isinstance(op, (ast.Is, ast.IsNot, ast.Eq, ast.NotEq)) for op in c.ops)]
                 eq = [c for c in cmps if any(isinstance(op, (ast.Eq, ast.NotEq)) for op in c.ops)
                       and not any(isinstance(x, ast.Constant) for x in [c.left] + c.comparators)
@@ -365,7 +381,7 @@ def identity_matching(prog: Program, res: Results, rid: str) -> None:
                             f"different attrpath parents with the same last segment and value are equal, so `rm services.fail2ban.enable` "
                             f"deletes the line of `services.nginx.enable`")
             elif isinstance(n, ast.Call) and isinstance(n.func, ast.Attribute) and n.func.attr in ("remove", "index", "count") \
-                    and "attrpath_order" in norm(n.func.value):
+                    and is_order(n.func.value, orders):
                 inside_loop = False
                 r.instances += 1
                 r.ob(False, {"site": f.key, "call": norm(n)[:60]})
